@@ -1109,8 +1109,96 @@ func genC12Sweeps(o *hx.Out, r *hx.Rng, tier string) {
 	}
 }
 
+// ---------- kind 15: InvCDF at the CDF values of the bracket expansion's own probe points ----------
+
+// genericDist hides a distribution's own InvCDF so that stats.InvCDF takes the generic numerical path.
+type genericDist struct{ d stats.DistCommon }
+
+func (g genericDist) CDF(x float64) float64       { return g.d.CDF(x) }
+func (g genericDist) Bounds() (float64, float64) { return g.d.Bounds() }
+
+// c12ProbeXs: the points the expansion loops of the generic InvCDF evaluate the CDF at:
+// 0, then 0+1, +2, +4, ... = 2^k - 1 upwards, respectively -(2^k - 1) downwards. Ascending.
+func c12ProbeXs(kmax int) []float64 {
+	var xs []float64
+	for k := kmax; k >= 1; k-- {
+		xs = append(xs, -(math.Ldexp(1, k) - 1))
+	}
+	xs = append(xs, 0)
+	for k := 1; k <= kmax; k++ {
+		xs = append(xs, math.Ldexp(1, k)-1)
+	}
+	return xs
+}
+
+// c12ProbeInv ships (x0, y = CDF(x0) bit for bit, x = InvCDF(y), CDF(x)) for every probe point x0
+// with 0 < CDF(x0) < 1. which: 0 = Student t (p1 = nu), 1 = normal through the generic path
+// (p1, p2 = mu, sigma), 2 = step distribution (p1, p2 = lo, hi). A few of the points are also
+// shipped as kind 7 replays (model vs code on the same class).
+func c12ProbeInv(o *hx.Out, r *hx.Rng, which int, p1, p2 float64, d stats.DistCommon, kmax int) {
+	var x0s, ys, xs, fs []float64
+	pan := false
+	inv := stats.InvCDF(d)
+	nlo, nhi := 0, 0
+	for _, x0 := range c12ProbeXs(kmax) {
+		var y float64
+		if try(func() { y = d.CDF(x0) }) || !(0 < y && y < 1) {
+			continue
+		}
+		var x, f float64
+		if try(func() { x = inv(y); f = d.CDF(x) }) {
+			pan = true
+		}
+		x0s, ys, xs, fs = append(x0s, x0), append(ys, y), append(xs, x), append(fs, f)
+		switch {
+		case y > 0.5:
+			nhi++
+		case y < 0.5:
+			nlo++
+		}
+		if !pan {
+			calib(fmt.Sprintf("probe-inv%d F(inv y)-y", which), f-y)
+		}
+	}
+	cs := hx.L(hx.I(15), hx.I(which), hx.F64(p1), hx.F64(p2), f64s(x0s), f64s(ys), f64s(xs), f64s(fs), hx.Bool(pan))
+	o.Count(fmt.Sprintf("probe inv kind=%d", which))
+	o.Dist[fmt.Sprintf("probe inv kind=%d points p>0.5", which)] += nhi
+	o.Dist[fmt.Sprintf("probe inv kind=%d points p<0.5", which)] += nlo
+	args := hexfs(append([]float64{p1, p2}, x0s...))
+	o.Add(cs, c12DistInput{fmt.Sprintf("probe-inv%d", which), args}, fmt.Sprint("pi", which, args), len(ys) > 1)
+	names := []string{"t-probe", "normal-probe", "step-probe"}
+	for j := 0; j < 2 && len(ys) > 0; j++ {
+		c12InvCDF(o, names[which], d, ys[r.Intn(len(ys))])
+	}
+}
+
+func genC12Probe(o *hx.Out, r *hx.Rng, tier string) {
+	nT, nN, nS := 36, 10, 6
+	if tier == "thorough" {
+		nT, nN, nS = 400, 100, 40
+	}
+	for i := 0; i < nT; i++ {
+		v := c12Nu(r)
+		if i < 12 { // the degrees of freedom of small samples, every run
+			v = []float64{1, 2, 3, 4, 5, 6, 8, 10, 18, 30, 2.5, 7.25}[i]
+		}
+		c12ProbeInv(o, r, 0, v, 0, stats.TDist{V: v}, 12)
+	}
+	for i := 0; i < nN; i++ {
+		mu, sigma := (r.Float()-0.5)*10, math.Ldexp(1+r.Float(), r.Range(-1, 7))
+		if i%2 == 0 {
+			mu = 0
+		}
+		c12ProbeInv(o, r, 1, mu, sigma, genericDist{stats.NormalDist{Mu: mu, Sigma: sigma}}, 10)
+	}
+	for i := 0; i < nS; i++ {
+		lo, hi := -r.Float()*70, r.Float()*90
+		c12ProbeInv(o, r, 2, lo, hi, stepDist{lo: lo, hi: hi}, 7)
+	}
+}
+
 func genC12(o *hx.Out, r *hx.Rng, tier string, replay string) error {
-	o.Rule = "C12 cases: (1) descriptive statistics of samples of 1-300 finite values (11 shapes x 3 orders x sorted flag) with 11 percentiles each; (2) the four t-tests on raw samples (incl. empty, single, constant, mismatched) and on summary triples (zero/non-integer weights, zero variance, unknown hypothesis); (3-6) mathBetaInc/betacf/TDist.CDF/PDF replay with oracle tables for nu in [1,1e5] incl. non-integers; (7-8) generic InvCDF and bisectBool replay; (9) NormalDist replay; (10) sweeps of the implementation as data; (11) certified reference points; (13) PDF values on 65-point dyadic grids with the CDF at both ends (Student t, nu in [1,1e5] incl. non-integers; normal), for quadrature; (14) second table of certified reference points (t and normal, PDF and CDF). non-trivial = the case exercises the main path (sample of >= 2 values, test without error, 0<x<1, ...); distinct by inputs"
+	o.Rule = "C12 cases: (1) descriptive statistics of samples of 1-300 finite values (11 shapes x 3 orders x sorted flag) with 11 percentiles each; (2) the four t-tests on raw samples (incl. empty, single, constant, mismatched) and on summary triples (zero/non-integer weights, zero variance, unknown hypothesis); (3-6) mathBetaInc/betacf/TDist.CDF/PDF replay with oracle tables for nu in [1,1e5] incl. non-integers; (7-8) generic InvCDF and bisectBool replay; (9) NormalDist replay; (10) sweeps of the implementation as data; (11) certified reference points; (13) PDF values on 65-point dyadic grids with the CDF at both ends (Student t, nu in [1,1e5] incl. non-integers; normal), for quadrature; (14) second table of certified reference points (t and normal, PDF and CDF); (15) InvCDF(dist)(dist.CDF(x0)) at the probe points x0 = 0, +-(2^k - 1) of the generic InvCDF's bracket expansion (p = a probed CDF value bit for bit, both p > 0.5 and p < 0.5; Student t for nu 1..30 and random in [1,1e5], normal and a step distribution through the generic path), a few of them also as kind 7 replays. non-trivial = the case exercises the main path (sample of >= 2 values, test without error, 0<x<1, ...); distinct by inputs"
 	mult := 1
 	if tier == "thorough" {
 		mult = 40
@@ -1127,6 +1215,7 @@ func genC12(o *hx.Out, r *hx.Rng, tier string, replay string) error {
 	}
 	genC12Sweeps(o, r.Split(), tier)
 	genC12Quad(o, r.Split(), tier)
+	genC12Probe(o, r.Split(), tier)
 	o.Extra["max_observed_deviations"] = C12Calib
 	return nil
 }
